@@ -19,6 +19,8 @@ LIBC = {"libc::mprotect": 3, "libc::mlock": 2, "libc::munlock": 2, "libc::madvis
 PROT = {0: "NoAccess", 1: "ReadOnly", 3: "ReadWrite"}
 MADV = {16: "DONTDUMP", 17: "DODUMP"}
 
+MULTI_CONFIG = True
+
 EXPLANATION = (
     "PROV/SIB/MUSTCALL over MIR expressions. For each libc memory call the address and length "
     "arguments are rebuilt as expression trees and must be as_ptr(S)/len(S) of the same slice S. Each "
